@@ -23,33 +23,55 @@ Clauses of the statement and the theorems that carry them
   every pair of frequencies up to 1 000 000, by a monotone-gap induction, no pair enumeration),
   `bound_within_64`, `top_is_default`, `becomes_default`.
 * "with auto-learning disabled, committing never changes the user dictionary": `no_learn_when_disabled`.
-* the bare public function: `estimate_no_panic` (exact precondition; F07 witnesses as examples).
+* the bare public function: `estimate_no_panic` (exact precondition; F07 witnesses as examples), `estimate_editor_path` /
+  `estimate_rising_le_max` (F40 repaired: no panic and a result within `MAX_USER_FREQ` for every `u32` frequency),
+  `estimate_future_time` (F07's time subtraction repaired).
 -/
 namespace Chewing.C08
 open Chewing Chewing.Learn Gen.Est Gen.Learn
 
-/-! ## The bare function `LaxUserFreqEstimate::estimate` (F07 is recorded against it, not against C08) -/
+/-! ## The bare function `LaxUserFreqEstimate::estimate` (F07 is recorded against it, not against C08)
 
-/-- `estimate` returns a value — no `u32`/`u64` operation overflows or underflows, so debug and release
-    profiles agree — exactly under `EstimatePre`: the stored time is not in the future, and in the band that
-    applies the subtraction and the addition (resp. the two subtractions) stay in range -/
+After the repair of F40 and of F07's time subtraction (`fix:` commit in the repository: `saturating_add` before the
+clamp, `saturating_sub` for the time difference) the only operations left that can fail are the plain `u32`
+subtractions `max_freq - orig_freq` (rising bands) and `freq - orig_freq`, `freq - delta` (long-gap band). -/
+
+/-- `estimate` returns a value — no `u32` operation overflows or underflows, so debug and release profiles
+    agree — exactly under `EstimatePre`: `orig ≤ max` in a rising band, `orig ≤ freq` and `delta ≤ freq` in the
+    long-gap band.  No condition on the stored time or on the size of the stored frequency any more. -/
 theorem estimate_no_panic (lifetime freq : Nat) (lastUsed : Option Nat) (orig maxF : Nat) :
     (estimate lifetime freq lastUsed orig maxF).isOk = true ↔ EstimatePre lifetime freq lastUsed orig maxF :=
   estimate_isOk_iff lifetime freq lastUsed orig maxF
 
-/-- F07, witness 1: stored time 0 at lifetime 100 000 (long-gap band) with frequency 5 < 10 -/
+/-- F07, witness 1 (still open, unreachable from the editor): stored time 0 at lifetime 100 000 (long-gap band)
+    with frequency 5 < 10 -/
 example : estimate 100000 5 (some 0) 0 0 = .panic "estimate: freq - delta" := by decide
-/-- F07, witness 2: stored time in the future -/
-example : estimate 100 5 (some 101) 5 5 = .panic "estimate: lifetime - last_used" := by decide
+/-- F07, witness 2 — repaired: a stored time in the future is "just used" -/
+example : estimate 100 5 (some 101) 5 5 = .ok 6 := by decide
+/-- **F07 (time) repaired, for all inputs**: a stored time at or after the clock runs the short band; it panics
+    only if `orig > max` -/
+theorem estimate_future_time (lifetime freq t orig maxF : Nat) (h : lifetime ≤ t) :
+    estimate lifetime freq (some t) orig maxF = risingBand shortDiv shortPlus shortInc freq orig maxF :=
+  estimate_future_timestamp lifetime freq t orig maxF h
 /-- the precondition is satisfiable in every band -/
 example : (estimate 100 5 (some 90) 5 9).isOk = true ∧ (estimate 10000 5 (some 90) 5 9).isOk = true
     ∧ (estimate 100000 50 (some 90) 5 9).isOk = true := by decide
 
 /-- the editor path (`learn_phrase`: no timestamp, `orig_freq = phrase.freq() ≤ max_freq`) only ever runs the short
-    band and cannot panic while `max_freq + 10 ≤ u32::MAX`; stored times never influence learning -/
-theorem estimate_editor_path (lifetime f mx : Nat) (h : f ≤ mx) (hb : mx + shortInc ≤ u32Max) :
+    band and cannot panic — **for every stored frequency** (F40 repaired: the head-room hypothesis
+    `max_freq + 10 ≤ u32::MAX` of the unrepaired code is gone); stored times never influence learning -/
+theorem estimate_editor_path (lifetime f mx : Nat) (h : f ≤ mx) :
     estimate lifetime f none f mx = .ok (stepFreq f mx) :=
-  estimate_editor lifetime f mx h hb
+  estimate_editor lifetime f mx h
+
+/-- **F40 repaired**: whatever a rising band returns — for all frequencies, `u32::MAX` included — is within
+    `MAX_USER_FREQ`; in particular the editor path never stores more than `MAX_USER_FREQ` -/
+theorem estimate_rising_le_max (div plus inc f o m v : Nat) (h : risingBand div plus inc f o m = .ok v) :
+    v ≤ maxUserFreq :=
+  risingBand_le_max div plus inc f o m v h
+
+/-- the former F40 witness (stored frequency `u32::MAX`, any clock): clamped, not a panic -/
+example : estimate 5 4294967295 none 4294967295 4294967295 = .ok 99999999 := by decide
 
 /-- in the two rising bands even the bare function never lowers a frequency within `MAX_USER_FREQ` -/
 theorem estimate_rising_monotone (div plus inc f o m v : Nat) (hf : f ≤ maxUserFreq)
@@ -73,7 +95,7 @@ theorem learn_ge_merged (ctx : LearnCtx) (u : UserMap) (key : List Nat) (x : Tex
       mergedFreq ctx.sys u key x ≤ v.1 ∧ (mergedFreq ctx.sys u key x < maxUserFreq → mergedFreq ctx.sys u key x < v.1) := by
   have hf := mergedFreq_le ctx.sys u key x hB
   have hy := othersMax_le ctx.sys u key x hB
-  refine ⟨_, _, learnPhrase_update ctx u key x hlen hx hne (by have := u32_headroom; omega),
+  refine ⟨_, _, learnPhrase_update ctx u key x hlen hx hne,
     UserMap.get?_insert_self _ _ _, learnStep_ge _ _ hf, fun h => stepFreq_gt _ _ h⟩
 
 /-- a whole commit (any number of learn units): no panic, nothing lowered, bound kept -/
@@ -87,6 +109,26 @@ theorem commit_monotone (disabled : Bool) (ctx : LearnCtx) (symbols : List Sym) 
     simp only [Bool.false_eq_true, if_false]
     rw [autoLearn_eq ctx symbols ivs u hr]
     exact learnAll_bounded ctx _ u hB
+
+/-- **F40 repaired, on the commit path**: the learning effect of a commit never panics — for ALL dictionaries,
+    i.e. for every stored `u32` frequency and every stored time (a dictionary file of valid format may hold any);
+    the bound `FreqBounded` of `commit_monotone` is needed for "nothing lowered" only, not for "no panic" -/
+theorem commit_never_panics (disabled : Bool) (ctx : LearnCtx) (symbols : List Sym) (ivs : List Interval) (u : UserMap)
+    (hr : IvsInRange symbols ivs) :
+    ∃ u', commitLearn disabled ctx symbols ivs u = .ok u' := by
+  unfold commitLearn
+  cases disabled with
+  | true => exact ⟨u, rfl⟩
+  | false =>
+    simp only [Bool.false_eq_true, if_false]
+    rw [autoLearn_eq ctx symbols ivs u hr]
+    exact learnAll_total ctx _ u
+
+/-- the former F40 witness on the commit path: a system phrase stored with frequency `u32::MAX` is learned without
+    a panic (and clamped to `MAX_USER_FREQ`) -/
+example :
+    learnPhrase { sys := [([1], { text := [65], freq := 4294967295 })], lifetime := 0 } [] [1] [65]
+      = .ok [(([1], [65]), (99999999, 0))] := by decide
 
 /-- the bound is needed: a system frequency above `MAX_USER_FREQ` is *lowered* to it by learning
     (outside the property's quantifier, which stops at 1 000 000) -/
